@@ -984,6 +984,11 @@ class Cov(Reduction):
             "cols": self.frame.columns,
         }
 
+    def _simplify_up(self, parent, dependents):
+        # the result has one row per column of the frame: selecting columns
+        # of the result must not remove columns (rows of the result) from the input
+        return
+
 
 class Corr(Cov):
     corr = True
